@@ -25,7 +25,9 @@ RULE = ('every abstract table of 0..N rows (row = kind k|f x container position 
         'scope element present only when it has rows), roote (root shape, string/token alphabets whose v1 is the empty '
         'string), ref-ab / ref-ba / ref-pc / ref-cp (XSD 1.1 only: the constraint is declared on one of two sibling '
         'scope elements a, b - or of a parent p and its child n - and reused by the other with ref=; template keyrefR '
-        'reuses the keyref too)} x arity {1, 2 fields}; '
+        'reuses the keyref too), xdn (XSD 1.1 only: root shape under targetNamespace urn:t, unprefixed element names '
+        'in selector / field XPaths resolved by xpathDefaultNamespace: 7 schema-level settings x 6 selector/field '
+        'overrides x 3 prefix styles + the all-prefixed baseline, as part of the layout dimension)} x arity {1, 2 fields}; '
         'each table is expanded to every variant: version {1.0, 1.1} x value alphabet (string, token, integer, '
         'decimal, boolean, QName with 1-3 lexical sets each; every A cell as v1 and as v1\') x field layout '
         '(@a, c, c/d absent-c, c/d empty-c | @a,@b ; @a,c) x row order (all orders when R^n <= 4096, else the '
@@ -72,10 +74,53 @@ REF1 = ['integer/a']                                     # XSD 1.1 constraint re
 LAYOUTS = {'@a': ['@a'], 'c': ['c'], 'c/d': ['c/d'], 'c/d~': ['c/d'], '@a,@b': ['@a', '@b'], '@a,c': ['@a', 'c']}
 ARITY = {1: ['@a', 'c', 'c/d', 'c/d~'], 2: ['@a,@b', '@a,c']}
 TEMPLATES = ('unique', 'key', 'keyref', 'keyrefR')
-SCOPES = ('root', 'roote', 'wrap', 'mid', 'nest', 'up', 'up0', 'ref-ab', 'ref-ba', 'ref-pc', 'ref-cp')
+SCOPES = ('root', 'roote', 'wrap', 'mid', 'nest', 'up', 'up0', 'ref-ab', 'ref-ba', 'ref-pc', 'ref-cp', 'xdn')
 # XSD 1.1 only: a constraint declared on one scope element and reused by the other with <xs:key ref="K"/>:
 # siblings a, b (declared on a / on b) and parent p with child n (declared on p / on n).  Template 'keyref' has the
 # keyref only where the key is declared, 'keyrefR' reuses the keyref as well (<xs:keyref ref="R"/>).
+# Scope 'xdn' (XSD 1.1 only): the root shape in a schema with targetNamespace urn:t (qualified local elements) whose
+# selector / field XPaths use unprefixed element names resolved by xpathDefaultNamespace.  A configuration is
+# (S, Osel, Ofld, selector prefixed?, element steps of the fields prefixed?) with
+#   S     on <xs:schema>: N absent | T ##targetNamespace | D ##defaultNamespace with xmlns="urn:t" | D0 ##defaultNamespace
+#         without a default xmlns | U the literal URI | L ##local | X absent, but xmlns="urn:t" is declared
+#   Osel / Ofld  the attribute on every xs:selector / xs:field: N absent | T | L | U
+XDN_TNS = 'urn:t'
+XDN_S = {'N': None, 'T': '##targetNamespace', 'D': '##defaultNamespace', 'D0': '##defaultNamespace', 'U': XDN_TNS,
+         'L': '##local', 'X': None}
+XDN_O = {'N': None, 'T': '##targetNamespace', 'L': '##local', 'U': XDN_TNS}
+XDN_OVERRIDES = [('N', 'N'), ('L', 'N'), ('N', 'L'), ('T', 'N'), ('N', 'T'), ('U', 'U')]
+XDN_LAYOUTS = {1: ['@a', 'c', 'c/d'], 2: ['@a,c']}
+
+
+def xdn_configs(layout):
+    """Configuration names 'S.Osel.Ofld.selp.fldp' for one field layout (attribute steps never take a namespace)."""
+    out = ['N.N.N.1.1']                                              # everything prefixed: the plain baseline
+    for sname in XDN_S:
+        for osel, ofld in XDN_OVERRIDES:
+            for selp, fldp in ((0, 0), (0, 1), (1, 0)):
+                if layout == '@a' and (ofld != 'N' or fldp != 1):
+                    continue
+                out.append('%s.%s.%s.%d.%d' % (sname, osel, ofld, selp, fldp))
+    return out
+
+
+def layouts_of(scope, nf):
+    if scope != 'xdn':
+        return ARITY[nf]
+    return ['%s|%s' % (layout, cfg) for layout in XDN_LAYOUTS[nf] for cfg in xdn_configs(layout)]
+
+
+def xdn_resolution(layout):
+    """(selector matches the rows, per field: the field path matches) for a composite layout 'fields|config'."""
+    fields, cfg = layout.split('|')
+    sname, osel, ofld, selp, fldp = cfg.split('.')
+    default_xmlns = XDN_TNS if sname in ('D', 'X') else None
+    sel_ns = ref.effective_default_namespace(XDN_O[osel], XDN_S[sname], XDN_TNS, default_xmlns)
+    fld_ns = ref.effective_default_namespace(XDN_O[ofld], XDN_S[sname], XDN_TNS, default_xmlns)
+    sel_ok = selp == '1' or sel_ns == XDN_TNS
+    return sel_ok, tuple(spec[0] == '@' or fldp == '1' or fld_ns == XDN_TNS for spec in LAYOUTS[fields])
+
+
 REF_SCOPES = {'ref-ab': ('a', 'b'), 'ref-ba': ('b', 'a'), 'ref-pc': ('p', 'n'), 'ref-cp': ('n', 'p')}
 ORDERED_MAX = 4096
 SLICES = 32                    # quick explores 1/SLICES of the next bound, chosen by the seed
@@ -87,18 +132,20 @@ def alphas_of(scope, nf, n):
     base ones in the other scope shapes.  Depends on the table only, never on the tier."""
     if scope == 'roote':
         return EMPTY2
-    if scope in REF_SCOPES:
+    if scope in REF_SCOPES or scope == 'xdn':
         return REF1
     return ROOT11 if scope == 'root' and not (nf == 2 and n >= 4) else BASE5
 
 
 def versions_of(scope):
-    return ('1.1',) if scope in REF_SCOPES else ('1.0', '1.1')
+    return ('1.1',) if scope in REF_SCOPES or scope == 'xdn' else ('1.0', '1.1')
 
 
 def row_bound(tier, scope, nf):
     """(complete bound, next bound explored by residue slice or None)."""
     base = 3 if (scope == 'root' or nf == 1) else 2
+    if scope == 'xdn':
+        return 2, None
     if scope in ('nest', 'wrap', 'roote'):
         return base, None                   # same bound in both tiers: the next bound of these shapes is the most
                                             # expensive part of the space and repeats the behaviours of this one
@@ -113,7 +160,7 @@ def row_alphabet(template, scope, nf):
     if scope in ('up', 'up0'):
         places = [('k', 0), ('k', 1), ('f', 2)]
     else:
-        npos = {'root': 1, 'roote': 1, 'wrap': 2, 'mid': 2, 'nest': 3}.get(scope, 2)
+        npos = {'root': 1, 'roote': 1, 'xdn': 1, 'wrap': 2, 'mid': 2, 'nest': 3}.get(scope, 2)
         kinds = ('k', 'f') if template in ('keyref', 'keyrefR') else ('k',)
         places = [(k, p) for k in kinds for p in range(npos)]
     return [(k, p, c) for (k, p) in places for c in cells]
@@ -162,7 +209,7 @@ def expansions(table):
 def n_variants(template, scope, nf, table):
     na = sum(c == 1 for _, _, cells in table for c in cells)
     orders = 1 if is_ordered(template, scope, nf, len(table)) else 2
-    return len(versions_of(scope)) * len(alphas_of(scope, nf, len(table))) * len(ARITY[nf]) * orders * 2 ** na
+    return len(versions_of(scope)) * len(alphas_of(scope, nf, len(table))) * len(layouts_of(scope, nf)) * orders * 2 ** na
 
 
 # --- documents ------------------------------------------------------------------------------------
@@ -195,7 +242,7 @@ def build_tree(scope, table, alpha, rev):
     at = {}
     for kind, pos, cells in seq:
         at.setdefault(pos, []).append(make_row(kind, cells, alpha))
-    if scope in ('root', 'roote'):
+    if scope in ('root', 'roote', 'xdn'):
         return ('r', at.get(0, []))
     if scope in ('ref-ab', 'ref-ba'):
         return ('r', [('elem', ('a', at.get(0, []))), ('elem', ('b', at.get(1, [])))])
@@ -238,8 +285,11 @@ def render_row(item, layout):
 
 def render(tree, layout, top=True):
     label, items = tree
+    default = ''
+    if '|' in layout:                                               # scope xdn: every element is in urn:t
+        layout, default = layout.split('|')[0], ' xmlns="%s"' % XDN_TNS
     body = ''.join(render(i[1], layout, False) if i[0] == 'elem' else render_row(i, layout) for i in items)
-    xmlns = ''.join(' xmlns:%s="%s"' % kv for kv in sorted(ROOT_NS.items())) if top else ''
+    xmlns = default + ''.join(' xmlns:%s="%s"' % kv for kv in sorted(ROOT_NS.items())) if top else ''
     return '<%s%s>%s</%s>' % (label, xmlns, body, label)
 
 
@@ -249,7 +299,46 @@ XS = '<xs:schema xmlns:xs="http://www.w3.org/2001/XMLSchema">\n%s</xs:schema>'
 _schemas = {}
 
 
+def xdn_schema_text(template, layout, ftype):
+    fields, cfg = layout.split('|')
+    sname, osel, ofld, selp, fldp = cfg.split('.')
+    t = 'xs:' + ftype
+    specs = LAYOUTS[fields]
+    child = ''
+    if 'c' in specs:
+        child = '<xs:element name="c" type="%s" minOccurs="0"/>' % t
+    elif 'c/d' in specs:
+        child = ('<xs:element name="c" minOccurs="0"><xs:complexType><xs:sequence><xs:element name="d" type="%s" '
+                 'minOccurs="0"/></xs:sequence></xs:complexType></xs:element>' % t)
+    rowtype = ('<xs:complexType name="Row"><xs:sequence>%s</xs:sequence><xs:attribute name="a" type="%s"/>'
+               '<xs:attribute name="b" type="%s"/></xs:complexType>\n' % (child, t, t))
+
+    def attr(o):
+        return '' if XDN_O[o] is None else ' xpathDefaultNamespace="%s"' % XDN_O[o]
+
+    def path(spec, prefixed):
+        if spec[0] == '@':
+            return spec
+        return '/'.join(('t:' if prefixed else '') + step for step in spec.split('/'))
+
+    flds = ''.join('<xs:field xpath="%s"%s/>' % (path(s, fldp == '1'), attr(ofld)) for s in specs)
+    tag = 'unique' if template == 'unique' else 'key'
+    key = '<xs:%s name="K"><xs:selector xpath="%s"%s/>%s</xs:%s>' % (tag, path('k', selp == '1'), attr(osel), flds, tag)
+    keyref = ('<xs:keyref name="R" refer="t:K"><xs:selector xpath="%s"%s/>%s</xs:keyref>'
+              % (path('f', selp == '1'), attr(osel), flds) if template == 'keyref' else '')
+    head = ('<xs:schema xmlns:xs="http://www.w3.org/2001/XMLSchema" xmlns:t="%s"%s targetNamespace="%s" '
+            'elementFormDefault="qualified"%s>\n'
+            % (XDN_TNS, ' xmlns="%s"' % XDN_TNS if sname in ('D', 'X') else '', XDN_TNS,
+               '' if XDN_S[sname] is None else ' xpathDefaultNamespace="%s"' % XDN_S[sname]))
+    body = ('<xs:element name="r"><xs:complexType><xs:choice minOccurs="0" maxOccurs="unbounded"><xs:element name="k" '
+            'type="t:Row"/><xs:element name="f" type="t:Row"/></xs:choice></xs:complexType>%s%s</xs:element>\n'
+            % (key, keyref))
+    return head + rowtype + body + '</xs:schema>'
+
+
 def schema_text(template, layout, ftype, scope):
+    if scope == 'xdn':
+        return xdn_schema_text(template, layout, ftype)
     t = 'xs:' + ftype
     specs = LAYOUTS[layout]
     child = ''
@@ -315,13 +404,13 @@ def decl_of(template, scope, ftype):
         declared_on, reused_on = REF_SCOPES[scope]
         ref_on = {'keyref': (declared_on,), 'keyrefR': (declared_on, reused_on)}.get(template)
         return ref.Decl(kind, ftype, (declared_on, reused_on), ref_on)
-    if scope in ('root', 'roote', 'wrap'):
+    if scope in ('root', 'roote', 'wrap', 'xdn'):
         key_on = 'r'
     else:
         key_on = 'm'
     ref_on = None
     if template == 'keyref':
-        ref_on = 'r' if scope in ('root', 'roote', 'wrap', 'up', 'up0') else 'm'
+        ref_on = 'r' if scope in ('root', 'roote', 'wrap', 'xdn', 'up', 'up0') else 'm'
     return ref.Decl(kind, ftype, key_on, ref_on)
 
 
@@ -348,7 +437,7 @@ def variants(template, scope, nf, table):
     for alpha in alphas_of(scope, nf, len(table)):
         for ctab in conc:
             for rev in orders:
-                for layout in ARITY[nf]:
+                for layout in layouts_of(scope, nf):
                     for version in versions_of(scope):
                         yield version, alpha, layout, ctab, rev
 
@@ -368,10 +457,14 @@ def run_table(template, scope, nf, table, acc=None):
     for v in variants(template, scope, nf, table):
         version, alpha, layout, ctab, rev = v
         ftype = ALPHAS[alpha][0]
-        if last is None or last[0] != (alpha, ctab, rev):
+        resolution = xdn_resolution(layout) if scope == 'xdn' else None
+        if last is None or last[0] != (alpha, ctab, rev, resolution):
             tree = build_tree(scope, ctab, alpha, rev)
-            res = ref.judge(ref_tree(tree), decl_of(template, scope, ftype))
-            last = ((alpha, ctab, rev), tree, res)
+            rtree = ref_tree(tree)
+            if resolution is not None:                               # what the XPaths select, by the reference
+                rtree = ref.restrict(rtree, *resolution)
+            res = ref.judge(rtree, decl_of(template, scope, ftype))
+            last = ((alpha, ctab, rev, resolution), tree, res)
         _, tree, res = last
         xml = render(tree, layout)
         schema = get_schema(version, template, layout, ftype, scope)
@@ -418,7 +511,10 @@ def sample_of(template, scope, nf, table):
     v = next(variants(template, scope, nf, table))
     version, alpha, layout, ctab, rev = v
     tree = build_tree(scope, ctab, alpha, rev)
-    res = ref.judge(ref_tree(tree), decl_of(template, scope, ALPHAS[alpha][0]))
+    rtree = ref_tree(tree)
+    if scope == 'xdn':
+        rtree = ref.restrict(rtree, *xdn_resolution(layout))
+    res = ref.judge(rtree, decl_of(template, scope, ALPHAS[alpha][0]))
     return {'template': template, 'scope': scope, 'fields': nf, 'table': show_table(table),
             'variants': n_variants(template, scope, nf, table), 'first_variant': vname(v),
             'document': render(tree, layout), 'reference': '+'.join(res.conditions()) or 'valid'}
